@@ -542,3 +542,36 @@ Example C03_ex_gauge_block_run :
   | Panic => []
   end = [0; 3000; 2000; 3000].
 Proof. vm_compute. repeat split; reflexivity. Qed.
+
+(* ---------------------------------------------------------------------------------------------
+   Tie to the code by translation + proof: the functions below are GENERATED on every run from /repo's
+   current Go source (translator/gen_gofuncs.go -> Gen/GoWindows.v); the theorems say that the hand-written model the
+   property theorems above are about computes what the generated function computes, for all arguments. *)
+From Coq Require Import String.
+From JK Require Import Base.GoSem Gen.GoWindows Proofs.GoTieWindows.
+
+(* the per-prover step of Model/Rewards.v follows the verdict keeper.manageProof (generated from the current source)
+   takes: the size tracker grows exactly on Keep, by the file size, for the prover named by the record *)
+Theorem C03_code_tie_manageProof :
+  forall h s k size, small h -> small (Rewards.f_start (ms_file s)) -> small (Rewards.f_interval (ms_file s)) ->
+    let f := ms_file s in
+    gen_manageProof (Rewards.f_start f) (Rewards.f_interval f) h size (rw_found f k) (rw_last f k)
+    = gmap (verdict_events size) (spec_verdict (Rewards.f_start f) (Rewards.f_interval f) h (rw_found f k) (rw_last f k)) /\
+    visit h s k
+    = match spec_verdict (Rewards.f_start f) (Rewards.f_interval f) h (rw_found f k) (rw_last f k) with
+      | GPanic => Rewards.Panic
+      | GVal VRemove =>
+          obind (remove_prover f k) (fun f' => Rewards.Ok {| ms_file := f'; ms_tr := ms_tr s; ms_burn := ms_burn s |})
+      | GVal VBurn =>
+          obind (remove_prover f k)
+            (fun f' => Rewards.Ok {| ms_file := f'; ms_tr := ms_tr s; ms_burn := burn_contract (ms_burn s) k |})
+      | GVal VKeep =>
+          Rewards.Ok {| ms_file := f;
+                ms_tr := aset N.eqb (ms_tr s) (rw_prover f k) (wrap64 (aval N.eqb (ms_tr s) (rw_prover f k) + Rewards.f_size f));
+                ms_burn := ms_burn s |}
+      end.
+Proof.
+  intros h s k size Hh Hs Hp. cbv zeta.
+  exact (conj (gen_manageProof_spec _ _ h size _ _ Hh Hs Hp) (rewards_visit h s k)).
+Qed.
+Print Assumptions C03_code_tie_manageProof.
